@@ -6,7 +6,8 @@ On every run the current source text is translated again:
   ProgramEntry._transform_linspace_commands (hardware/awgs/base.py)         -> coq/C17/Gen_awg_base.v      (GenBaseEq.v)
   the node dataclasses, DepKey.from_voltages, dependencies(), new_loop, get_dependency_state,
   _entry_state_unchanged_since, _add_repetition_node, _add_iteration_node, add_node,
-  to_increment_commands, LinSpaceVM.__init__                                -> coq/C17/Gen_linspace_tr.v   (GenTrEq.v)
+  to_increment_commands, LinSpaceVM.__init__/run, LinSpaceBuilder           -> coq/C17/Gen_linspace_tr.v   (GenTrEq.v)
+  SimpleExpression operators and value (qupulse/program/__init__.py)        -> coq/C17/Gen_sexpr.v         (GenSExprEq.v)
 The committed proofs GenEq.v / GenObjEq.v show the generated definitions equal to (a refinement of) the model; they stop
 compiling when the source changes its behaviour, and the translator refuses source text outside its subset."""
 import os
@@ -18,6 +19,8 @@ GEN_FILE = os.path.join(vlib.COQ, 'C17', 'Gen_linspace.v')
 GEN_OBJ_FILE = os.path.join(vlib.COQ, 'C17', 'Gen_linspace_obj.v')
 GEN_BASE_FILE = os.path.join(vlib.COQ, 'C17', 'Gen_awg_base.v')
 GEN_TR_FILE = os.path.join(vlib.COQ, 'C17', 'Gen_linspace_tr.v')
+GEN_SE_FILE = os.path.join(vlib.COQ, 'C17', 'Gen_sexpr.v')
+SOURCE_SE = 'qupulse/program/__init__.py'
 SOURCE = 'qupulse/program/linspace.py'
 SOURCE_BASE = 'qupulse/hardware/awgs/base.py'
 
@@ -48,6 +51,14 @@ def pregen(ctx):
         txt = py2gallina_c17.translate_translator(os.path.join(vlib.REPO, SOURCE))
         txt = txt.replace(vlib.REPO, '/repo')
         vlib.write_if_changed(GEN_TR_FILE, txt + '\n')
+        out.append({'name': name, 'ok': True, 'detail': 'translated'})
+    except Exception as e:
+        out.append({'name': name, 'ok': False, 'detail': 'translator refused the current source: %s' % e})
+    name = 'translate:%s::SimpleExpression.__add__/__radd__/__sub__/__rsub__/__neg__/__mul__/__rmul__/__truediv__/value' % SOURCE_SE
+    try:
+        txt = py2gallina_c17.translate_simple_expression(os.path.join(vlib.REPO, SOURCE_SE))
+        txt = txt.replace(vlib.REPO, '/repo')
+        vlib.write_if_changed(GEN_SE_FILE, txt + '\n')
         out.append({'name': name, 'ok': True, 'detail': 'translated'})
     except Exception as e:
         out.append({'name': name, 'ok': False, 'detail': 'translator refused the current source: %s' % e})
